@@ -110,7 +110,11 @@ def deriv(r, a):
     if k in '01':
         return ZERO
     if k == 's':
-        return ONE if r[1] == a else ZERO
+        if r[1] == a:
+            return ONE
+        if len(r[1]) > 1 and r[1][0] == a:
+            return ('s', r[1][1:])          # a symbol whose name has several characters denotes that string
+        return ZERO
     if k == '+':
         return _sum(deriv(r[1], a), deriv(r[2], a))
     if k == '.':
